@@ -100,6 +100,11 @@ def run_shard(desc, ctx):
             if idx % ns != sh:
                 continue
             run_case({'kind': 'cbin_reader', 'n': n, 'chunk_len': cl, 'threads': [1, 2, 3, 4]}, ctx)
+    # compressed files whose chunks have unequal lengths (the .ch file lists explicit bounds)
+    for lens in ([5, 10, 10, 10], [3, 1, 4, 1, 5, 9, 2, 6], [10, 10, 3, 10], [1, 20]):
+        idx += 1
+        if idx % ns == sh:
+            run_case({'kind': 'cbin_reader', 'n': sum(lens), 'chunk_len': max(lens), 'lens': lens, 'threads': [1, 2, 3]}, ctx)
     # a recording without any sample (in-memory array): bounds [0], no interval
     idx += 1
     if idx % ns == sh:
@@ -450,8 +455,8 @@ def _case_cbin_reader(case, ctx):
     A = L.unique_cells(n, 3, np.int16)
     d = scratch_dir('c16_')
     try:
-        path = L.write_cbin(d, A, 100., cl, n_threads=2)
-        n_chunks = -(-n // cl)
+        path = L.write_cbin(d, A, 100., cl, n_threads=2) if not case.get('lens') else L.write_cbin_irregular(d, A, 100., case['lens'])
+        n_chunks = -(-n // cl) if not case.get('lens') else len(case['lens'])
         for th in case['threads']:
             for cache in (True, False):
                 for rep in range(3):
